@@ -348,7 +348,47 @@ fn table_len(m: &flurry::HashMap<u32, u32, HB>) -> usize {
     unsafe { m.verif_table_len() }
 }
 
+fn run_set_sweep_case(c: &SweepCase) -> Result<(), String> {
+    type S = flurry::HashSet<u32, HB>;
+    let tl = |s: &S| unsafe { s.verif_dump() }.table.map_or(0, |t| t.bins.len());
+    let s = if c.kind == 2 { S::with_capacity_and_hasher(c.c as usize, HB(HMode::Identity)) } else { S::with_hasher(HB(HMode::Identity)) };
+    let g = s.guard();
+    if c.kind == 2 && c.c == 0 {
+        if tl(&s) != 0 || tl(&S::default()) != 0 || flurry::HashSet::<u32>::new().len() != 0 {
+            return Err("HashSet::with_capacity(0) / new() / default() allocated a table".into());
+        }
+        return Ok(());
+    }
+    let mut next = 0u32;
+    if c.kind == 3 {
+        for _ in 0..c.pre {
+            s.insert(next, &g);
+            next += 1;
+        }
+        s.reserve(c.c as usize, &g);
+    }
+    let n0 = tl(&s);
+    if n0 == 0 || !n0.is_power_of_two() {
+        return Err(format!("set table length {} after sizing for {}", n0, c.c));
+    }
+    for _ in 0..c.c {
+        s.insert(next, &g);
+        next += 1;
+    }
+    let n = tl(&s);
+    if n != n0 {
+        return Err(format!("{}: the set's table grew from {} to {} bins while inserting the {} elements it was sized for", if c.kind == 2 { format!("HashSet::with_capacity({})", c.c) } else { format!("{} elements + HashSet::reserve({})", c.pre, c.c) }, n0, n, c.c));
+    }
+    if s.len() as u32 != next {
+        return Err(format!("set len() = {} after {} distinct inserts", s.len(), next));
+    }
+    Ok(())
+}
+
 fn run_sweep_case(c: &SweepCase) -> Result<(), String> {
+    if c.kind >= 2 {
+        return run_set_sweep_case(c);
+    }
     let m = if c.kind == 0 { flurry::HashMap::<u32, u32, HB>::with_capacity_and_hasher(c.c as usize, HB(HMode::Identity)) } else { flurry::HashMap::<u32, u32, HB>::with_hasher(HB(HMode::Identity)) };
     let g = m.guard();
     if c.kind == 0 && c.c == 0 {
@@ -413,6 +453,15 @@ fn c14_shard(ctx: &Ctx, out: &mut ShardOut) {
     for a in (1..=max_c / 2).step_by(3) {
         for pre in [0u32, 1, 5, 12, 13, 100] {
             cases.push(SweepCase { kind: 1, c: a, pre });
+        }
+    }
+    // the HashSet wrappers of the same contract (coarser)
+    for c in (0..=max_c).step_by(7).chain([1u32, 2, 3, 11, 12, 13, 48, 49]) {
+        cases.push(SweepCase { kind: 2, c, pre: 0 });
+    }
+    for a in (1..=max_c / 4).step_by(11) {
+        for pre in [0u32, 5, 12] {
+            cases.push(SweepCase { kind: 3, c: a, pre });
         }
     }
     for (i, c) in cases.iter().enumerate() {
